@@ -38,7 +38,12 @@ func DecodeMdat(hdr BoxHeader, startPos uint64, r io.Reader) (Box, error) {
 // If not enough content, an accumulated error is stored in sr, though
 func DecodeMdatSR(hdr BoxHeader, startPos uint64, sr bits.SliceReader) (Box, error) {
 	largeSize := hdr.Hdrlen > boxHeaderSize
-	return &MdatBox{startPos, sr.ReadBytes(hdr.payloadLen()), nil, 0, largeSize}, nil
+	// Copy the payload so that later in-place operations on the samples (encryption, decryption,
+	// start-code conversion) do not write into the caller's input buffer.
+	src := sr.ReadBytes(hdr.payloadLen())
+	data := make([]byte, len(src))
+	copy(data, src)
+	return &MdatBox{startPos, data, nil, 0, largeSize}, nil
 }
 
 // IsLazy - is the mdat data handled lazily (with separate writer/reader).
